@@ -294,3 +294,96 @@ def run_case(ctx, case):
         run_orth(ctx, case)
     else:
         run_side(ctx, case)
+
+
+# =============================================================================== correspondence with the Lean model (main session)
+def _corr_cases(rng, tier):
+    from core import gen_tensor
+    n = {"quick": 120, "thorough": 1500, "search": 0}[tier]
+    out = []
+    for _ in range(n):
+        N = rng.choice([2, 2, 3, 3, 4])
+        shape = [rng.randint(2, 4) for _ in range(N)]
+        t = gen_tensor(rng, shape, rmax=3, stream="float")
+        side = rng.choice(["left", "right"])
+        mu = rng.randint(0, N - 2) if side == "left" else rng.randint(1, N - 1)
+        out.append({"kind": "corr", "t": t.to_json(), "side": side, "mu": mu})
+    return out
+
+
+_orig_cases = cases
+_orig_run_case = run_case
+
+
+def cases(rng, tier):  # noqa: F811
+    return _orig_cases(rng, tier) + _corr_cases(rng, tier)
+
+
+class _QRRecorder:
+    """records the answers of torch.linalg.qr while active (in-process wrapping, no repo hook)"""
+
+    def __enter__(self):
+        import torch
+        self.calls = []
+        self.orig = torch.linalg.qr
+
+        def wrapped(A, *a, **kw):
+            Q, R = self.orig(A, *a, **kw)
+            self.calls.append((A.detach().clone(), Q.detach().clone(), R.detach().clone()))
+            return Q, R
+        torch.linalg.qr = wrapped
+        return self
+
+    def __exit__(self, *exc):
+        import torch
+        torch.linalg.qr = self.orig
+
+
+def _mat(M):
+    from core import q
+    M = M.numpy()
+    return "M %d %d %s" % (M.shape[0], M.shape[1], " ".join(q(v) for v in M.reshape(-1)))
+
+
+def run_case(ctx, case):  # noqa: F811
+    if case.get("kind") != "corr":
+        return _orig_run_case(ctx, case)
+    import numpy as np, torch
+    from core import PT, parse_tensor, cmp_struct, from_tn, safe, close
+    t = PT.from_json(case["t"])
+    side, mu = case["side"], case["mu"]
+    ctx.case(("corr", side, mu, t.sig()), True, {"op": "model correspondence: %s_orthogonalize(%d) with recorded QR answers" % (side, mu), "t": t.describe()})
+    ctx.count("corr:" + side)
+    if not (getattr(ctx, "use_model", False) and not getattr(ctx, "search_only", False)):
+        return
+    tt = t.to_tn()
+    with _QRRecorder() as rec:
+        r = safe(lambda: tt.left_orthogonalize(mu) if side == "left" else tt.right_orthogonalize(mu))
+    if r[0] == "err":
+        ctx.oracle("%s_orthogonalize(%d) raised %s: %s" % (side, mu, r[1], r[2]), case); return
+    # kernel contract validated numerically: Q R = A, Q^T Q = I
+    for A, Q, Rm in rec.calls:
+        if not close((Q @ Rm).numpy(), A.numpy(), 1e-10)[0] or not close((Q.T @ Q).numpy(), np.eye(Q.shape[1]), 1e-10)[0]:
+            ctx.count("kernel_contract_violated"); return
+    has_fac = t.Us[mu] is not None
+    calls = list(rec.calls)
+    if len(calls) != (2 if has_fac else 1):
+        ctx.corr("unexpected number of QR calls: %d" % len(calls), case); return
+    line = "%s_orth %d %d " % (side, mu, 1 if has_fac else 0)
+    if has_fac:
+        line += _mat(calls[0][1]) + " " + _mat(calls[0][2]) + " "
+    A, Q, Rm = calls[-1]
+    if side == "left":
+        line += _mat(Q) + " " + _mat(Rm)
+    else:   # QR of the transposed right unfolding: unfolding = L Q'  with L = R^T, Q' = Q^T
+        line += _mat(Q.T.contiguous()) + " " + _mat(Rm.T.contiguous())
+    toks = ctx.drv().call(line + " " + t.ser())
+    if toks[0] != "ok":
+        ctx.corr("model %s_orth failed: %s" % (side, " ".join(toks[:5])), case); return
+    m = parse_tensor(toks, 1)[0]
+    d = cmp_struct(from_tn(tt), m, False, rtol=1e-9)
+    if d is not None:
+        ctx.corr("%s_orthogonalize(%d): implementation cores differ from the model fed with the same QR answers: %s" % (side, mu, d), case)
+    md = PT([np.asarray(c, dtype=np.float64) for c in m.cores], [None if U is None else np.asarray(U, dtype=np.float64) for U in m.Us]).dense()
+    if not close(md, t.dense(), 1e-8)[0]:
+        ctx.spec("model: orthogonalisation step changed the tensor", case)
